@@ -27,7 +27,7 @@ RULE = (
     'the arithmetic time with the coroutine\'s value. non-trivial = >= 2 processes interacted; '
     'distinct = per-process log digest'
 )
-RULE = RULE + (' Further: failures that are no Exception or are Concurrent objects, member lists re-used by the program, native tasks that are cancelled while a process waits for them, native simulation younger than the environment.')
+RULE = RULE + (' Further: failures that are no Exception or are Concurrent objects, member lists re-used by the program, native tasks that are cancelled while a process waits for them, native waits for an event that are given up before it fails (unhandled failure ends the run), native simulation younger than the environment.')
 
 LEVEL_TEXT = (
     'Exploration by differential runtime monitoring: identical generated SimPy programs are '
@@ -858,7 +858,161 @@ def native_outcomes(case):
     return violations, {'native_outcomes_followed': 1}
 
 
+def abandoned_waits(case):
+    """A native activity that waits for an event and gives the wait up - or stays - while the
+    event fails: the failure of an event counts as handled only if it is raised in somebody who
+    waits for it at that moment; otherwise "an unhandled failed event ends the run with that
+    exception", whoever was interested in it earlier on."""
+    from usim import Scope, time, until, Concurrent
+    rng = random.Random('%s/%s/c18-abandoned' % (case['seed'], case['index']))
+    source = rng.choice(['event', 'process', 'all_of', 'any_of'])
+    leave = rng.choice(['until', 'cancel', 'interrupt', 'stays', 'stays'])
+    fate = rng.choice(['fails', 'fails', 'fails', 'succeeds'])
+    other_waiter = rng.random() < 0.3          # a process that waits as well and handles it
+    embedded = rng.random() < 0.5 or leave == 'cancel'
+    if leave == 'interrupt':
+        embedded = False
+    quit_at, fire_at = rng.choice([(1, 2), (1, 1.5), (2.5, 3)])
+    log = []
+    sess = Session(budget_per_step=20000, budget_total=400000)
+    holder = {}
+
+    def build(env):
+        if source == 'event':
+            event = env.event()
+
+            def firing(env):
+                yield env.timeout(fire_at)
+                if fate == 'fails':
+                    event.fail(PlainSimErr('late'))
+                else:
+                    event.succeed('fine')
+            env.process(firing(env))
+            return event
+
+        def failing(env):
+            yield env.timeout(fire_at)
+            if fate == 'fails':
+                raise PlainSimErr('late')
+            return 'fine'
+        process = env.process(failing(env))
+        if source == 'process':
+            return process
+        if source == 'all_of':
+            return env.all_of([process, env.timeout(0.25)])
+        return env.any_of([process, env.timeout(20)])
+
+    def handler(env, event):
+        try:
+            yield event
+            log.append(('handler', 'value', env.now))
+        except SIM_ERRORS as err:
+            log.append(('handler', 'caught ' + str(getattr(err, 'tag', err)), env.now))
+
+    async def wait_for(event):
+        try:
+            value = await event
+            log.append(('waiter', 'value', time.now))
+            return value
+        except SIM_ERRORS as err:
+            log.append(('waiter', 'caught ' + str(getattr(err, 'tag', err)), time.now))
+
+    async def bounded_wait(event):
+        async with until(time + quit_at):
+            await wait_for(event)
+        log.append(('waiter', 'gave up', time.now))
+
+    def yielding(env, event):
+        try:
+            yield bounded_wait(event) if leave == 'until' else wait_for(event)
+        except UsimInterrupt:
+            log.append(('waiter', 'gave up', env.now))
+        yield env.timeout(10)
+
+    def interrupter(env, victim):
+        yield env.timeout(quit_at)
+        victim.interrupt('enough')
+
+    def standalone():
+        env = usimpy.Environment()
+        event = build(env)
+        if other_waiter:
+            env.process(handler(env, event))
+        victim = env.process(yielding(env, event))
+        if leave == 'interrupt':
+            env.process(interrupter(env, victim))
+        env.run(until=12)
+        holder['now'] = env.now
+
+    async def embedded_main():
+        env = usimpy.Environment()
+        async with Scope() as scope:
+            async with env:
+                event = build(env)
+                if other_waiter:
+                    env.process(handler(env, event))
+                if leave == 'until':
+                    scope.do(bounded_wait(event))
+                else:
+                    task = scope.do(wait_for(event))
+                    if leave == 'cancel':
+                        await (time + quit_at)
+                        task.cancel('enough')
+                        log.append(('waiter', 'gave up', time.now))
+                await (time + 12)
+        holder['now'] = time.now
+
+    if embedded:
+        outcome = sess.run(embedded_main())
+    else:
+        outcome = sess.run(runner=standalone)
+    violations = [dict(v) for v in sess.violations if v['mechanism'].startswith('kernel-')]
+    what = '%s %s; a native activity waiting for it %s at %s (%s%s)' % (
+        source, fate + ' at %s' % fire_at, 'stays' if leave == 'stays' else 'gives up by ' + leave,
+        quit_at, 'embedded' if embedded else 'standalone',
+        ', a process waits for it as well' if other_waiter else '')
+    handled = fate == 'succeeds' or other_waiter or leave == 'stays'
+    if handled:
+        if outcome[0] != 'ok':
+            violations.append({'mechanism': 'c18:run-outcome',
+                               'msg': '%s: nothing is unhandled, but the run ended with %r' % (
+                                   what, outcome[1])})
+    else:
+        failure = outcome[1] if outcome[0] == 'exc' else None
+        leaves = failure.flattened().children if isinstance(failure, Concurrent) else (failure,)
+        if not any(isinstance(leaf, PlainSimErr) for leaf in leaves):
+            violations.append({
+                'mechanism': 'c18:unhandled-failure-lost',
+                'msg': '%s: the failure is raised in nobody, yet the run ended with %r instead '
+                       'of the failure (log %s)' % (what, outcome[1], log)})
+    if leave != 'stays' and ('waiter', 'gave up', quit_at) not in log:
+        violations.append({'mechanism': 'c18:native-waiter',
+                           'msg': '%s: the waiter did not get away at %s (log %s)' % (
+                               what, quit_at, log)})
+    if leave == 'stays':
+        expected = ('waiter', 'value' if fate == 'succeeds' else 'caught late', fire_at)
+        if expected not in log:
+            violations.append({'mechanism': 'c18:native-waiter',
+                               'msg': '%s: expected %s (log %s)' % (what, expected, log)})
+    elif any(entry[0] == 'waiter' and entry[1] != 'gave up' for entry in log):
+        violations.append({'mechanism': 'c18:native-waiter',
+                           'msg': '%s: a wait that was given up has completed (log %s)' % (
+                               what, log)})
+    if other_waiter:
+        expected = ('handler', 'value' if fate == 'succeeds' else 'caught late', fire_at)
+        if expected not in log:
+            violations.append({'mechanism': 'c18:native-waiter',
+                               'msg': '%s: expected %s (log %s)' % (what, expected, log)})
+    for vio in violations:
+        vio['case'] = dict(case)
+    return violations, {'abandoned_waits_followed': 1,
+                        'abandoned_waits_unhandled': int(not handled)}
+
+
 def run_case(case):
+    if case['index'] % 20 == 13:
+        violations, extra = abandoned_waits(case)
+        return {'evals': 1, 'sigs': [], 'stats': extra, 'violations': violations, 'sample': None}
     if case['index'] % 20 == 11:
         violations, extra = native_outcomes(case)
         return {'evals': 1, 'sigs': [], 'stats': extra, 'violations': violations, 'sample': None}
